@@ -403,6 +403,13 @@ func (c *simCtx) seenLookup(lk *ssa.Lookup) (bool, bool) {
 		start = c.loop.Body
 	}
 	reach := simulate(start, nil, assumeMiss)
+	if c.loop != nil {
+		// first occurrence of the offending element: if that iteration can
+		// never continue (always fails), no later iteration can find it recorded
+		if !reach[c.loop.Header] && !reach[c.loop.Done] {
+			return false, true
+		}
+	}
 	for _, u := range updates {
 		if reach[u.Block()] {
 			return false, false
